@@ -66,6 +66,8 @@ func c04Scripts(tier string) []uciParams {
 		{"go depth 1", "await", "go depth 1", "await"},
 		{"go depth 1", "await", "go infinite", "!stop", "await"},
 		{"go depth 1 movetime 5", "await", "go infinite", "!stop", "await"}, // the movetime timer of an answered go outlives it
+		{"go wtime 1000 winc 10 btime 1000 binc 10 movestogo 10", "await"}, // parameters the driver does not handle sit between those it does (@kvk)
+		{"go nodes 50 mate 2", "!stop", "await"},                           // only unhandled limits: runs until stopped (@kvk)
 		{"go depth 2", "!stop", "await", "@other", "go depth 1", "await"},    // a stop racing with the natural end of the search, then another position: whatever is left of the first search must not answer the second
 		{"go depth 1", "!stop", "await", "@other", "go infinite", "stop", "await"},
 	}
@@ -79,7 +81,7 @@ func c04Scripts(tier string) []uciParams {
 				if e.name != "plain" && st.name == "fortress-moves" && tier != "thorough" {
 					continue
 				}
-				if strings.Contains(strings.Join(g, " "), "@other") && st.name != "kvk" && st.name != "kvk-black" && tier != "thorough" {
+				if gl := strings.Join(g, " "); (strings.Contains(gl, "@other") || strings.Contains(gl, "winc") || strings.Contains(gl, "nodes")) && st.name != "kvk" && st.name != "kvk-black" && tier != "thorough" {
 					continue // quick: the two-position scripts on the K v K set-ups only
 				}
 				if (st.name == "insufficient-after-capture" || st.name == "fivefold") && tier != "thorough" && e.name != "plain" && ei != 1 {
